@@ -182,9 +182,9 @@ func (n *Network) edgeBetween(uid, vid int64, directed bool) *Link {
 						// make sure that control node is on the outgoing side
 						if uNode != nil {
 							return incoming
-						} else {
-							return nil
 						}
+						// wrong direction - the same node may still be among the module outputs
+						break
 					}
 				}
 			}
@@ -196,9 +196,8 @@ func (n *Network) edgeBetween(uid, vid int64, directed bool) *Link {
 						// make sure that control node if on the incoming side
 						if vNode != nil {
 							return outgoing
-						} else {
-							return nil
 						}
+						break
 					}
 				}
 			}
